@@ -56,24 +56,48 @@ def forward_cost(S, h, Ls, p, ds):
 	return cost
 
 
-def discrete_case(rep, drv, rng, th):
+# Corpus: fixed instances that run first in both tiers - the situations earlier seeded changes and defects needed
+CORPUS_DISCRETE = [
+	{'N': 2, 'h': [1, 8], 'Ls': [1, 2], 'p': 5, 'kind': 'P', 'mean': 5},                      # costly upstream echelon: upstream minimiser below the downstream optimum
+	{'N': 3, 'h': [1, 4, 8], 'Ls': [1, 1, 2], 'p': 10, 'kind': 'UD', 'lo': 1, 'hi': 6},
+	{'N': 2, 'h': [1, 2], 'Ls': [1, 3], 'p': 20, 'kind': 'UD', 'lo': 8, 'hi': 12,              # unequal lead times, stage 2 evaluated below the internal grid
+	 'cands': [[12, 20], [12, 14], [6, 10]]},
+	{'N': 3, 'h': [3, 2, 1], 'Ls': [1, 2, 1], 'p': 30, 'kind': 'CD', 'vals': [4, 5, 6, 7], 'probs': [0.2, 0.4, 0.3, 0.1],
+	 'cands': [[6, 12, 15], [6, 9, 10], [3, 4, 5]]},
+]
+CORPUS_NORMAL = [
+	{'N': 1, 'h': [1], 'Ls': [2], 'p': 10, 'mean': 20, 'sd': 1},      # same mean and lead time, different spread, in one process (a cache keyed without the spread)
+	{'N': 1, 'h': [1], 'Ls': [2], 'p': 10, 'mean': 20, 'sd': 4},
+	{'N': 2, 'h': [2, 1], 'Ls': [2, 1], 'p': 10, 'mean': 20, 'sd': 2},
+]
+
+
+def discrete_case(rep, drv, rng, th, fixed=None):
 	from stockpyl import ssm_serial
 	from stockpyl.demand_source import DemandSource
 	from scipy import stats
-	N = rng.randint(1, 4 if th else 3)
-	h = [rng.choice([1, 2, 3, 0.5]) for _ in range(N)]          # echelon holding costs, stage 1 first
-	if N >= 2 and rng.random() < .35:
-		# a costly upstream echelon: the upstream cost function is then minimised BELOW the downstream optimum
-		h[rng.randrange(1, N)] = rng.choice([4, 8]); rep.count('ssm:costly-upstream-echelon')
-	Ls = [rng.choice([1, 1, 2, 3]) for _ in range(N)]
-	p = rng.choice([5, 10, 37.12, 20, 2])
-	kind = rng.choice(['P', 'P', 'UD', 'CD'])
-	if kind == 'P':
-		ds = DemandSource(type='P', mean=rng.choice([2, 5, 8]))
-	elif kind == 'UD':
-		lo = rng.randint(0, 3); ds = DemandSource(type='UD', lo=lo, hi=lo + rng.randint(1, 6))
+	if fixed:
+		# corpus case: fixed parameters (minimised past failures and seeded changes), run before the random stream
+		N = fixed['N']; h = list(fixed['h']); Ls = list(fixed['Ls']); p = fixed['p']; kind = fixed['kind']
+		if kind == 'P': ds = DemandSource(type='P', mean=fixed['mean'])
+		elif kind == 'UD': ds = DemandSource(type='UD', lo=fixed['lo'], hi=fixed['hi'])
+		else: ds = DemandSource(type='CD', demand_list=list(fixed['vals']), probabilities=list(fixed['probs']))
+		rep.count('ssm:corpus-case')
 	else:
-		ds = DemandSource(type='CD', demand_list=[0, 2, 5, 9], probabilities=[0.25, 0.25, 0.25, 0.25])
+		N = rng.randint(1, 4 if th else 3)
+		h = [rng.choice([1, 2, 3, 0.5]) for _ in range(N)]          # echelon holding costs, stage 1 first
+		if N >= 2 and rng.random() < .35:
+			# a costly upstream echelon: the upstream cost function is then minimised BELOW the downstream optimum
+			h[rng.randrange(1, N)] = rng.choice([4, 8]); rep.count('ssm:costly-upstream-echelon')
+		Ls = [rng.choice([1, 1, 2, 3]) for _ in range(N)]
+		p = rng.choice([5, 10, 37.12, 20, 2])
+		kind = rng.choice(['P', 'P', 'UD', 'CD'])
+		if kind == 'P':
+			ds = DemandSource(type='P', mean=rng.choice([2, 5, 8]))
+		elif kind == 'UD':
+			lo = rng.randint(0, 3); ds = DemandSource(type='UD', lo=lo, hi=lo + rng.randint(1, 6))
+		else:
+			ds = DemandSource(type='CD', demand_list=[0, 2, 5, 9], probabilities=[0.25, 0.25, 0.25, 0.25])
 	case = {'N': N, 'h': h, 'L': Ls, 'p': p, 'demand': kind, 'ds': {k: str(v) for k, v in ds.to_dict().items() if v is not None}}
 	rep.case('ssm-discrete', case, nontrivial=N >= 2); rep.count('ssm:N=%d' % N); rep.count('ssm:' + kind)
 	kw = dict(num_nodes=N, echelon_holding_cost={j + 1: h[j] for j in range(N)}, lead_time={j + 1: Ls[j] for j in range(N)}, stockout_cost=p, demand_source=ds)
@@ -124,6 +148,15 @@ def discrete_case(rep, drv, rng, th):
 			bad.append('level vector %s costs %r < cost %r of the returned levels %s' % (best[1], best[0], ref, pyS))
 	# expected_cost of an arbitrary vector = model evaluation mode = top-down evaluation
 	cands = [[pyS[j] + rng.randint(-3, 3) for j in range(N)]]
+	if N >= 2:
+		# the coarse global grid: upstream stages (or all stages) heavily understocked, levels still positive - the region in which
+		# the code evaluates stage j >= 2 below its internal inventory grid
+		f = rng.choice([0.3, 0.45, 0.6])
+		cands.append([pyS[0]] + [max(1, int(round(pyS[j] * f))) for j in range(1, N)])
+		cands.append([max(1, int(round(pyS[j] * f))) for j in range(N)])
+		rep.count('ssm:understocked-vectors-evaluated', 2)
+	if fixed and fixed.get('cands'):
+		cands += [list(c) for c in fixed['cands']]
 	for cand in cands:
 		try:
 			with warnings.catch_warnings():
@@ -178,13 +211,15 @@ def discrete_case(rep, drv, rng, th):
 			net = serial_system(N, node_order_in_system=up_first, echelon_holding_cost={lab[j]: h[j] for j in range(N)}, local_holding_cost=loc,
 								stockout_cost={lab[j]: (p if j == 0 else 0) for j in range(N)}, shipment_lead_time={lab[j]: Ls[j] for j in range(N)},
 								demand_source={lab[j]: (ds if j == 0 else None) for j in range(N)}, policy_type='BS', base_stock_level=0)
-			if rng.random() < .5:
+			if fixed or rng.random() < .5:
 				# the same network built by hand, nodes and edges added in an arbitrary order (the order of network.nodes carries no meaning)
 				from stockpyl.supply_chain_network import SupplyChainNetwork
 				from stockpyl.supply_chain_node import SupplyChainNode
 				from stockpyl.policy import Policy
 				net = SupplyChainNetwork()
 				js = list(range(N)); rng.shuffle(js)
+				if fixed:
+					js = list(range(N))          # corpus cases: customer-facing node first
 				for j in js:
 					nd_ = SupplyChainNode(lab[j], echelon_holding_cost=h[j], local_holding_cost=loc[lab[j]], stockout_cost=(p if j == 0 else 0),
 										  shipment_lead_time=Ls[j], demand_source=(ds if j == 0 else None), supply_type=('U' if j == N - 1 else None))
@@ -209,11 +244,15 @@ def discrete_case(rep, drv, rng, th):
 				 py=[pyS, C_star], model=mo, oracle=bool(bad), theorem=THEOREM if same else None)
 
 
-def normal_case(rep, rng):
+def normal_case(rep, rng, multi=False, fixed=None):
 	from stockpyl import ssm_serial
 	from stockpyl.newsvendor import newsvendor_normal
-	N = rng.randint(1, 3)
+	N = rng.randint(2, 3) if multi else rng.randint(1, 3)
 	h = [rng.choice([1, 2, 3]) for _ in range(N)]; Ls = [rng.choice([1, 2, 3]) for _ in range(N)]; p = rng.choice([10, 37.12]); mean, sd = rng.choice([5, 20, 50]), rng.choice([1, 2])
+	if multi and len(set(Ls)) == 1:
+		Ls[rng.randrange(N)] = Ls[0] % 3 + 1          # stage lead times that differ (the below-grid approximation sums them stage by stage)
+	if fixed:
+		N, h, Ls, p, mean, sd = fixed['N'], list(fixed['h']), list(fixed['Ls']), fixed['p'], fixed['mean'], fixed['sd']
 	case = {'N': N, 'h': h, 'L': Ls, 'p': p, 'mean': mean, 'sd': sd}
 	rep.case('ssm-normal', case, nontrivial=N >= 2)
 	kw = dict(num_nodes=N, echelon_holding_cost={j + 1: h[j] for j in range(N)}, lead_time={j + 1: Ls[j] for j in range(N)}, stockout_cost=p, demand_mean=mean, demand_standard_deviation=sd)
@@ -280,10 +319,15 @@ def run(rep, drv):
 				'Chen-Zheng recursion on the code\'s own grid and lead-time-demand tables; top-down expected-cost evaluator for the returned and neighbouring level vectors; '
 				'expected_cost of arbitrary vectors; one stage = newsvendor; renumbering; normal demand coherence and Shang-Song bounds. non-trivial = N >= 2' % (4 if th else 3))
 	rng = random.Random(rep.seed + 7)
-	for k in range(150 if th else 24):
+	for fx in CORPUS_DISCRETE:
+		discrete_case(rep, drv, rng, th, fixed=fx)
+	for fx in CORPUS_NORMAL:
+		normal_case(rep, random.Random(1), fixed=fx)
+	for k in range(150 if th else 20):
 		discrete_case(rep, drv, rng, th)
-	for k in range(40 if th else 6):
-		normal_case(rep, rng)
+	rngn = random.Random(rep.seed + 70)          # own stream: changes to the discrete generator do not move these cases
+	for k in range(40 if th else 7):
+		normal_case(rep, rngn, multi=(k % 4 != 3))
 
 
 def replay(rep, drv, doc):
